@@ -6,10 +6,32 @@ HARNESS = {
     'rand': dict(cpp=['h/h_rand.cpp'], c=['adp/adp_rand.c'], repo=['librfn/rand.c'], asan=False, ubsan=False,
                  cflags=['-O2']),
     'pack': dict(cpp=['h/h_pack.cpp'], c=['adp/adp_pack.c'], repo=['librfn/pack.c']),
+    'mqseq': dict(cpp=['h/h_mqseq.cpp'], c=['adp/adp_mq.c'], repo=['librfn/messageq.c']),
     'list': dict(cpp=['h/h_list.cpp'], c=['adp/adp_list.c'], repo=['librfn/list.c']),
 }
 
 PROPS = {
+    'C10': dict(
+        title='Message queue is a bounded FIFO of fixed buffers for every geometry',
+        rule='case = geometry (depth 1..32, msg_len from a fixed set or random <=2000, slack < msg_len; storage an '
+             'exact heap block under ASan) + optional pre-cycling + <=150 ops claim/send(any unsent)/receive/'
+             'release(oldest)/empty applied in lock-step to a MESSAGEQ_VAR_INIT queue and a messageq_init queue; '
+             'enum stages = every history of the given length for depth in {1,2,3,31,32} (31/32 pre-cycled so the '
+             'wrap is crossed). Non-trivial: index wraps at depth-1 with >=2 messages outstanding, or depth in '
+             '{1,32}, or slack>0. Distinct = distinct tapes.',
+        stages=[
+            dict(h='mqseq', mode='rc', what='random geometries and histories', quick=dict(cases=100000, len=330),
+                 thorough=dict(cases=5000000, len=330)),
+        ] + [
+            dict(h='mqseq', mode='enum', what='all histories, depth %d' % d,
+                 params=dict(depth=d, msg_len=3, slack=1, precycle=(d - 2 if d > 3 else 0)), workers=3,
+                 quick=dict(params=dict(ops=8)), thorough=dict(params=dict(ops=11)))
+            for d in (1, 2, 3, 31, 32)
+        ],
+        require={'wrapped-with-two-outstanding': 1000, 'depth-1': 1000, 'depth-32': 1000, 'slack': 1000,
+                 'send-out-of-claim-order-possible': 1000},
+        assumptions=['releases follow receives in receive order (the only order the API documents)'],
+    ),
     'C12': dict(
         title='Pack/unpack never leaves the buffer, fails stickily, and uses fixed byte order',
         rule='case = buffer size 0..64 (exact heap block, ASan) + <=24 pack/unpack ops with edge/random values, byte '
